@@ -44,3 +44,27 @@ pub(crate) fn check_ls(store: &Store, parent: &str, exists: bool, has_a: bool, h
     }
     core::mem::forget(l);
 }
+
+/// Does the result list contain `key` with the value of reference entry `e`?
+pub(crate) fn kv_has(g: &[KeyValuePair], key: &str, e: &E) -> bool {
+    let mut i = 0;
+    let mut f = false;
+    while i < g.len() {
+        if g[i].key == key && g[i].value.as_bool() == Some(e.b) {
+            f = true;
+        }
+        i += 1;
+    }
+    f
+}
+pub(crate) fn kv_has_key(g: &[KeyValuePair], key: &str) -> bool {
+    let mut i = 0;
+    let mut f = false;
+    while i < g.len() {
+        if g[i].key == key {
+            f = true;
+        }
+        i += 1;
+    }
+    f
+}
